@@ -1589,7 +1589,10 @@ class CodedKern(Kern):
         '''
         Construct a new name given the original, a tag and a suffix (which
         may or may not terminate the original name). If suffix is present
-        in the original name then the `tag` is inserted before it.
+        in the original name (in any combination of upper and lower case,
+        consistent with the way rename_and_write() constructs the name of
+        the output file) then the `tag` is inserted in its place, followed
+        by `suffix`.
 
         :param str original: The original name
         :param str tag: Tag to insert into new name
@@ -1597,7 +1600,7 @@ class CodedKern(Kern):
         :returns: New name made of original + tag + suffix
         :rtype: str
         '''
-        if original.endswith(suffix):
+        if original.lower().endswith(suffix.lower()):
             return original[:-len(suffix)] + tag + suffix
         return original + tag + suffix
 
